@@ -631,7 +631,12 @@ func c03Worker(c *core.Collector, x *Ctx) {
 				sort.Ints(pos)
 			}
 			for _, i := range pos {
-				for _, v := range []byte{0, 1, 0x7f, 0x80, 0xfe, 0xff} {
+				vals := []byte{0, 1, 0x7f, 0x80, 0xfe, 0xff}
+				if i < 16 {
+					// counts and totals live at the front: high single bits make count*stride wrap in 8/16/32-bit arithmetic
+					vals = append(vals, 0x02, 0x04, 0x08, 0x10, 0x20, 0x40, 0xc0)
+				}
+				for _, v := range vals {
 					if s[i] == v {
 						continue
 					}
